@@ -18,7 +18,7 @@ from vf.scenario import HINT, ClientLog, FlipLog, Template
 from vf.sched import PCT, RandomWalk, Scheduler, SchedEnv, Scripted, adopt, explore_bounded
 
 STATES = ["absent", "healthy", "pointer_lost", "creation_interrupted"]
-ACTORS = ["create_a", "create_b", "create_a_append", "create_noschema", "load", "table_ctor", "load_append", "create_a_hintfail"]
+ACTORS = ["create_a", "create_b", "create_a_append", "create_noschema", "load", "table_ctor", "load_append", "create_a_hintfail", "create_a_hint412"]
 
 SCHEMA_B_FIELDS = [
     {"id": 1, "name": "id", "type": "long", "required": True},
@@ -80,7 +80,7 @@ class Exec:
                 def fn() -> Any:
                     sa = tables.std_schema()
                     sb = tables.schema_of(SCHEMA_B_FIELDS, 2)
-                    if kind in ("create_a", "create_a_append", "create_a_hintfail"):
+                    if kind in ("create_a", "create_a_append", "create_a_hintfail", "create_a_hint412"):
                         t = ds.create_table(inst.table_path, schema=sa)
                     elif kind == "create_b":
                         t = ds.create_table(inst.table_path, schema=sb)
@@ -119,8 +119,21 @@ class Exec:
                         raise OSError("injected: the creator's pointer write failed")
 
             self.ip.before.append(hintfail)
+            answered412 = {"ABC"[i] for i, k in enumerate(case["actors"]) if k == "create_a_hint412"}
+
+            def hint412(req: Any) -> None:
+                # object store: the creator's create-if-absent pointer PUT is applied, its response is lost, the
+                # transport retries and the retry is answered 412 by the creator's own object
+                if req.op == "PUT" and req.key.endswith(HINT) and "IfNoneMatch" in req.kw and req.effect == "written":
+                    me = sched.me()
+                    if me is not None and me.name in answered412 and me.name not in fired:
+                        fired.add(me.name)
+                        from vf.fakes3 import client_error
+                        raise client_error("PreconditionFailed", "PUT", 412)
+
             if inst.store is not None:
                 inst.store.after.append(flips.s3_after)
+                inst.store.after.append(hint412)
                 inst.store.keep_log = False
             try:
                 with SchedEnv(sched, self.ip, inst.store):
@@ -236,11 +249,14 @@ class C18(Check):
 
     def gen_cases(self, tier: str, seed: int):
         pairs = [("create_a", "create_b"), ("create_a_append", "create_b"), ("create_a_hintfail", "create_b"), ("create_a", "load_append"),
+                 ("create_a_hint412", "create_b"),
                  ("create_a_append", "create_a_append"), ("create_noschema", "create_a_append"),
                  ("table_ctor", "create_a"), ("create_b", "load"), ("create_noschema", "load_append")]
         for state in STATES:
             for pr in pairs:
                 bes = ["local", "s3"] if (tier == "thorough" or pr in pairs[:4]) else ["local"]
+                if "create_a_hint412" in pr:
+                    bes = ["s3"]
                 for be in bes:
                     k = 1 if tier == "quick" else 2
                     nsh = 1 if k == 1 else 8
